@@ -12,9 +12,11 @@ Factorisation (`FfcxModel/IR/{Graph,Factorize}.lean`, proofs in `Lemmas/Factoriz
                                conditional), any field
   `accepted_closed`, `accepted_sum_operands`   what acceptance alone implies
   `factorize_rejects`, `factorize_rejects_nonlinear`, `factorize_rejects_divisor`,
-  `factorize_rejects_sum_argfree`   (the former F10 input `u + f` is now REJECTED)
-  `factorize_target_dropped_counterexample`, `factorize_product_collision_counterexample`
-                               the residual conditions CAN fail on accepted input
+  `accepted_targets`
+  `factorize_rejects_sum_argfree`, `factorize_rejects_target_argfree`
+                               (the former F10 inputs `u + f`, `as_vector((u, f))` are now REJECTED)
+  `factorize_product_collision_counterexample`
+                               the residual product condition CAN fail on accepted input
 -/
 import FfcxProofs.Lemmas.Tables
 import FfcxProofs.Lemmas.FactorizeTargets
@@ -31,8 +33,7 @@ variable {R : Type} [Field R] (ρ : Env R)
 
 /-- **`factorize_sound`** (full).  For every graph `S` that the algorithm ACCEPTS and that
 satisfies the residual decidable conditions `wfCheck` (`WF S rank` is the conjunction: product
-argkeys do not collide; targets of a form of rank ≥ 1 depend on arguments or are the literal zero
-and their re-keyed argkeys are distinct; argument `pos` = rank) and every field `R` with a lawful interpretation of literals and conjugation and
+argkeys do not collide; the re-keyed argkeys of a target are distinct; argument `pos` = rank) and every field `R` with a lawful interpretation of literals and conjugation and
 real-valued argument tables (`conj a = a`):
 
 * the result lists the targets of `S` in order;
@@ -53,7 +54,7 @@ theorem factorize_sound (hρ : LawfulEnv ρ) (hreal : RealArgs ρ) (S : Graph) (
   split at hwf
   · rename_i res h
     refine ⟨res, h, ?_, ?_, ?_⟩
-    · obtain ⟨st, _, _, _, _, htd⟩ := factorize_ok S rank res h
+    · obtain ⟨st, _, _, _, _, htd, _, _⟩ := factorize_ok S rank res h
       rw [htd, List.map_map]
       have : ((fun e : Nat × List Nat × Dict => (e.1, e.2.1)) ∘ fun (x : Nat × List Nat) =>
           (x.1, x.2, targetDict (fun si => List.idxOf si (argIndices S.nodes)) rank st x.1)) = id := by
@@ -327,7 +328,7 @@ theorem accepted_sum_operands (S : Graph) (rank : Nat) (res : FResult)
     (res.nodeFacs[a]?.getD []).isEmpty = (res.nodeFacs[b]?.getD []).isEmpty := by
   apply Decidable.byContradiction
   intro hne
-  obtain ⟨st, hrun, _, hfacs, _, _⟩ := factorize_ok S rank res h
+  obtain ⟨st, hrun, _, hfacs, _, _, _, _⟩ := factorize_ok S rank res h
   -- split the run at node i
   have hsplit : S.nodes.toList = S.nodes.toList.take i ++ S.nodes[i] :: S.nodes.toList.drop (i + 1) := by
     have hi' : i < S.nodes.toList.length := by simpa using hi
@@ -364,6 +365,46 @@ theorem accepted_sum_operands (S : Graph) (rank : Nat) (res : FResult)
     rw [hn, hrej] at hsuf
     cases hsuf
 
+/-- A target without factors in a form of rank ≥ 1 that is not the literal `Zero` is rejected with
+`RuntimeError("Expecting all non-zero components to depend on the arguments.")`. -/
+theorem factorize_rejects_target_argfree (S : Graph) (rank : Nat) (st : FState)
+    (hrun : runNodes (fun si => (argIndices S.nodes).idxOf si) (initState S.nodes) 0 S.nodes.toList = .ok st)
+    (hrange : ∀ t ∈ S.targets, t.1 < S.nodes.size)
+    (t : Nat × List Nat) (ht : t ∈ S.targets) (hrank : rank ≠ 0)
+    (hfree : st.facs[t.1]?.getD [] = []) (hk : kindAt S.nodes t.1 ≠ .zero) :
+    factorize S rank = .error .targetArgFree := by
+  unfold factorize
+  simp only [hrun]
+  have h1 : (S.targets.any fun t => decide (S.nodes.size ≤ t.1)) = false := by
+    apply Bool.eq_false_iff.mpr
+    intro h
+    rw [List.any_eq_true] at h
+    obtain ⟨x, hx, hle⟩ := h
+    have := hrange x hx
+    simp at hle; omega
+  have h2 : (S.targets.any fun t => targetRejected rank st S.nodes t.1) = true := by
+    rw [List.any_eq_true]
+    refine ⟨t, ht, ?_⟩
+    simp [targetRejected, hfree, hrank, hk]
+  simp [h1, h2]
+
+/-- In an accepted graph every target is a node of `S`, and a target of a form of rank ≥ 1 depends
+on arguments or is the literal `Zero` (the former `WF` target condition). -/
+theorem accepted_targets (S : Graph) (rank : Nat) (res : FResult) (h : factorize S rank = .ok res)
+    (t : Nat × List Nat) (ht : t ∈ S.targets) :
+    t.1 < S.nodes.size ∧
+    (res.nodeFacs[t.1]?.getD [] = [] → rank = 0 ∨ kindAt S.nodes t.1 = .zero) := by
+  obtain ⟨st, _, _, hfacs, _, _, hrange, hnrej⟩ := factorize_ok S rank res h
+  refine ⟨hrange t ht, ?_⟩
+  intro hemp
+  have := hnrej t ht
+  rw [hfacs] at hemp
+  simp only [targetRejected, hemp, List.isEmpty_nil, Bool.true_and] at this
+  by_cases hr : rank = 0
+  · exact Or.inl hr
+  · right
+    simpa [hr] using this
+
 /-! ### The residual conditions of `wfCheck` can fail on accepted input -/
 
 /-- does `Σ F_k Π args = S` hold for every target, in the rational interpretation? -/
@@ -378,12 +419,8 @@ argument -/
 def exTargetDrop : Graph :=
   { nodes := #[⟨.arg 0 0, []⟩, ⟨.term 0, []⟩], targets := [(0, [0]), (1, [1])] }
 
-/-- **Counterexample (target condition).**  The argument-free component of a rank-1 expression is
-accepted and silently dropped ("Zero form of arity 1 or higher: make factors empty"): with
-`f = 3` the target is `3`, the factorised value `0`. -/
-theorem factorize_target_dropped_counterexample :
-    factorizeError exTargetDrop 1 = none ∧ ¬ WF exTargetDrop 1 ∧
-    identityHolds (ratEnv (fun _ => 2) (fun _ => 3)) exTargetDrop 1 = false := by decide +kernel
+/-- rejected since commit 3991a34 (before: accepted, component `f` silently dropped) -/
+example : factorizeError exTargetDrop 1 = some .targetArgFree := by decide +kernel
 
 /-- `(u₀ + u₁)·(u₀ + u₁)` -/
 def exCollision : Graph :=
